@@ -12,11 +12,11 @@ CHECKS = {
          "Three owned dimensions: (1) every schedule of the real scheduler loop within d priority demotions of two base orders on generated sources — each yields a font, all bytes must agree with the inline build; (2) hash seeds 0..S through a getrandom interposer for every compilable repo fixture and the generated family under several option sets; (3) pool sizes with the real rayon pool (labelled uncontrolled). States/transitions/executions are reported.",
          "Sequentially consistent exploration; rayon replaced by a k-slot pool model in (1); real-pool schedules in (3) are sampled, the exhaustive schedule claim rests on (1). SOURCE_DATE_EPOCH fixed. Seeds outside the enumerated set and schedules beyond the demotion bound are not covered.",
          "DESIGN.md §2.1, §2.2, §3 C01"),
- "C02": ("model_checking", "stateful DFS by re-execution of the real Workload::exec under a controlled scheduler: all schedules within d demotions, visited-state matching, happens-before (vector clock) monitor on every context access",
+ "C02": ("model_checking", "stateful DFS by re-execution of the real Workload::exec under a controlled scheduler (all schedules within d demotions, visited-state matching, happens-before monitor on every context access) + explicit-state exploration, without a deviation bound, of an abstract scheduler model extracted from a recorded execution, every explored implementation execution replayed against the model",
          "engine-A",
-         "Every schedule of the real scheduler loop and its worker closures within d priority demotions (two base orders, pool sizes k) for a family of tiny sources that exercise each dynamic rule of handle_success; on every execution: no scheduler failure on a valid source, no deadlock, every conflicting pair of context accesses ordered by happens-before.",
-         "Hooks (cfg fontc_verif) announce each synchronisation step; exploration is sequentially consistent; no preemption inside Work::exec (ordering is judged on launch/finish edges); state merging is sound while the race monitor holds. Schedules needing more demotions than the completed d, other sources, weak memory are not covered.",
-         "DESIGN.md §2.2, §3 C02"),
+         "(1) Every schedule of the real scheduler loop and its worker closures within d priority demotions (two base orders, pool sizes k) for a family of tiny sources that exercise each dynamic rule of handle_success, plus a kitchen-sink source on the default schedules; on every execution: no scheduler failure on a valid source, no deadlock, every conflicting pair of context accesses of two jobs ordered by happens-before. (2) For each tiny source an abstract model of the scheduler (job statuses, re-implemented can_run, counters, the effect of every handle_success taken from scheduler snapshots) explored breadth-first over every interleaving of the dynamic jobs: whenever a job launches, every job whose conflicting access came first in the reference run has finished; no unable-to-proceed, no has-to-be-pending, no double completion. (3) Conformance: every execution of (1) is replayed against the model of (2) (launches allowed, pending sets, accesses and counters equal at every snapshot).",
+         "Hooks (cfg fontc_verif) announce each synchronisation step and print scheduler snapshots; exploration is sequentially consistent; no preemption inside Work::exec (ordering is judged on launch/finish edges); state merging is sound while the race monitor holds. The model is explored for sources of <= 4 glyphs; its counterexamples carry a model trace and are not replayed on the implementation; accesses of the main thread are recorded, not judged. Implementation schedules needing more demotions than the completed d, other sources, weak memory are not covered.",
+         "DESIGN.md §2.2, §2.2b, §3 C02"),
  "C03": ("exploration", "bounded-exhaustive enumeration of small variable designs (master sets x glyph kinds x perturbations x sparseness) compiled by the real compiler, judged by an independent gvar/IUP evaluator against the source drawing",
          "small-scope-compile",
          "Every design of the stated alphabet is compiled and every glyph instantiated at every master location by an evaluator written from the OpenType spec (cross-checked against skrifa); outlines must equal the master's drawing within the derived rounding/IUP bound, exactly at the default.",
@@ -27,10 +27,10 @@ CHECKS = {
          "Every per-master assignment of advances, heights and each MVAR-tagged metric over a small alphabet on all listed master sets; hmtx+HVAR, vmtx+VVAR, phantom points and MVAR values at every master must equal the rounded source value within the derived bound; default-location fields exact.",
          "Trusted: otvar ItemVariationStore / DeltaSetIndexMap evaluation (read-fonts and skrifa second opinion). Fallback-derived metrics are only judged for constancy. A third axis and composites with USE_MY_METRICS are not covered.",
          "DESIGN.md §3 C04"),
- "C05": ("exploration", "every compilable repo fixture x option sets compiled by the product binary and checked by an independent structural OpenType checker (container, counts, every cross-table reference)",
+ "C05": ("exploration", "every compilable repo fixture x option sets (product binary) and the complete product of 11 structural toggles of a generated design x option sets (in process), each font checked by an independent structural OpenType checker (container, counts, every cross-table reference)",
          "small-scope-compile",
          "Each successfully compiled font is checked by a hand-written sfnt container checker plus a full traversal that range-checks every glyph id, lookup/feature index, name id, region/axis index, variation index, component graph and maxp bound; skrifa is a second reader.",
-         "Trusted: otref (44 corruption tests show each defect class is reported). Sources are the repo fixtures (generated designs are added by other checks' spaces); index consistency inside one layout subtable is not checked.",
+         "Trusted: otref (44 corruption tests show each defect class is reported). Sources: the repo fixtures and the generated kitchen family (7 488 designs x 4 option sets at quick); index consistency inside one layout subtable is not checked.",
          "DESIGN.md §2.4, §3 C05"),
  "C06": ("exploration", "bounded-exhaustive enumeration of glyph sets, declared orders, export flags, component patterns, codepoints and production names; reference order computed from the design",
          "small-scope-compile",
